@@ -189,7 +189,8 @@ def _big_case(args):
 
 
 def _dataset_case(args):
-    seed, = args
+    seed = args[0]
+    allneg = len(args) > 1 and args[1] == "allneg"
     import dclab
     out = []
     cnt = 0
@@ -202,6 +203,9 @@ def _dataset_case(args):
     y[5] = np.inf
     x[7] = -5.0          # invalid only on the log scale
     y[9] = 0.0
+    if allneg:
+        # nothing is valid on a logarithmic y axis
+        y = -np.abs(y) - 0.001
     ds = dclab.new_dataset({"area_um": x, "deform": y})
     where = "dclab.rtdc_dataset.core:RTDCBase.get_downsampled_scatter"
     masks = [np.ones(n, bool), np.arange(n) % 2 == 0, np.arange(n) > 7]
@@ -217,7 +221,7 @@ def _dataset_case(args):
                     xsc, ysc = scale.split("/")
                     case = {"kind": "dataset", "seed": seed, "mask": mi,
                             "samples": samples, "remove_invalid": rem,
-                            "scale": scale}
+                            "scale": scale, "allneg": allneg}
                     cnt += 1
                     r = _call(ds.get_downsampled_scatter, downsample=samples,
                               xscale=xsc, yscale=ysc, remove_invalid=rem,
@@ -325,7 +329,7 @@ def run(ctx):
     res = par.pmap(_small_case, items)
     res += par.pmap(_big_case, [(nm, ctx.seed)
                                 for nm in generators(ctx.seed)])
-    res += par.pmap(_dataset_case, [(ctx.seed,)])
+    res += par.pmap(_dataset_case, [(ctx.seed,), (ctx.seed, "allneg")])
     nontriv = 0
     for n, vs, nt in res:
         cnt += n
@@ -374,6 +378,7 @@ def replay(case, ctx):
         return [v for v in vs if v["case"]["samples"] == case["samples"]
                 and v["case"]["remove_invalid"] == case["remove_invalid"]
                 and v["case"]["func"] == case["func"]]
-    vs = _dataset_case((case["seed"],))[1]
+    vs = _dataset_case((case["seed"], "allneg") if case.get("allneg")
+                       else (case["seed"],))[1]
     return [v for v in vs if all(v["case"].get(k) == case.get(k)
                                  for k in case)]
